@@ -1,5 +1,6 @@
 """C09 — SIV output equals the documented two-pass construction (construction conformance + dependency shape)."""
-from . import modecommon
+from . import modecommon, C05
+from .. import asmsrc
 
 LEVEL = "other"
 RM = {"MODE": "R-C09-CONSTR", "RT": "R-C09-CONSTR", "PREFIX": "R-C09-CONSTR", "NONCE2": "R-C09-DEP", "TAGPOS": "R-C09-CONSTR", "ADVANCE": "R-C09-CONSTR"}
@@ -13,5 +14,22 @@ def run(ck, build):
     ck.not_decided += ["'two messages get unrelated bodies beyond chance coincidence' is a cryptographic property of the permutation, not of the code: declined",
                        "values (no output is computed)"]
     mod, fns, n = modecommon.run_mode(ck, build, ("siv",), RM, helper_fns=True, floor_obl=200)
+    class _Ren:
+        def __init__(self, ck_):
+            self._ck = ck_
+
+        def ob(self, cond, rule, *a, **k):
+            return self._ck.ob(cond, "R-C09-CONSTR", *a, **k)
+
+        def ok(self, rule, *a, **k):
+            self._ck.ok("R-C09-CONSTR", *a, **k)
+
+        def bad(self, rule, *a, **k):
+            self._ck.bad("R-C09-CONSTR", *a, **k)
+
+        def __getattr__(self, n_):
+            return getattr(self._ck, n_)
+    for ks in asmsrc.KEYSIZES:
+        C05.c_backend_rule(_Ren(ck), mod, ks, "H/N0")       # premise: the permutation under the construction is the specified one
     modecommon.fixture_control(ck, build, ("siv",), RM, "c08_bad.c", ["R-C09-CONSTR", "R-C09-DEP"])
     ck.coverage_extra.update({"functions": [f.name for f in fns], "exhaustive": True, "exhaustive_over": "every path class of the six SIV functions and nine helpers"})
